@@ -503,7 +503,9 @@ func kitHTTPReq(scheme, host, path string, headers map[string]string) *envoy.Che
 		Attributes: &envoy.AttributeContext{
 			Request: &envoy.AttributeContext_Request{
 				Http: &envoy.AttributeContext_HttpRequest{
-					Method: "GET", Scheme: scheme, Host: host, Path: path, Headers: headers,
+					// any method: a logout form may POST, a prefetch may HEAD; nothing in the properties
+					// depends on it
+					Method: vn.StringIn("req-method", 7, "ABCDEFGHIJKLMNOPQRSTUVWXYZ"), Scheme: scheme, Host: host, Path: path, Headers: headers,
 				},
 			},
 		},
